@@ -58,6 +58,17 @@ def body(run):
         return "writer-trace:" + ev
     run.add_trace_rejections(v, key)
 
+    # path equivalence: writing a column or a block through the vectored writer produces the same bytes as encoding
+    # it into a buffer - every column kind of the codec universe, validated against Wire.tla (the same trace
+    # lines as C01: "alts" = WriteBlock+Flush with an empty and a pre-filled staging buffer)
+    import wire as W
+    clines, cblocks, cwall = W.run_codec(PID, drv, "paths", ["-mode", "blocks", "-depth", "3" if run.thorough() else "2", "-per", "2",
+                                                           "-revs", "54460,51902", "-seed", str(run.seed)])
+    cv = W.validate(PID, clines, "tv-paths")
+    V.log("  path equivalence: %d blocks of every column kind, %d accepted, %d rejected" % (cblocks, cv.accepted_lines, len(cv.rejections)))
+    run.add_trace_rejections(cv, W.rejection_key, W.describe)
+    run.coverage["path_equivalence_blocks"] = cblocks
+
     sample = []
     for l in lines:
         if l.startswith('{"ev":"Reset"') and sample:
